@@ -357,6 +357,12 @@ func localOrigin(w *World, fi *FuncInfo, obj types.Object) (*types.Var, string) 
 		if fv := fieldOrDeref(info, assigns[0].Rhs[0]); fv != nil {
 			return fv, "copy"
 		}
+		// x := y, y a local with an origin of its own (an alias of an alias)
+		if o2, isV := objOf(info, assigns[0].Rhs[0]).(*types.Var); isV && o2 != obj && !o2.IsField() {
+			if fv, how := localOrigin(w, fi, o2); fv != nil {
+				return fv, how
+			}
+		}
 		// x := recv.helper(): the helper returns a local with an origin of its own
 		if c, ok := unparen(assigns[0].Rhs[0]).(*ast.CallExpr); ok && w != nil {
 			if fv, how := helperReturnOrigin(w, fi, c); fv != nil {
